@@ -135,7 +135,7 @@ def analyse(case, io):
         if n == "AuxCreate":
             cid = _t(a[0])
             created[cid] = dict(what=a[1], creator=_t(a[2]), extra=a[3])
-            if len(cid) == 1:
+            if not a[2]:                    # created by the top-level driver: a root computation
                 roots.append(cid)
                 awaited.add(cid)
             if a[1] == "item":
